@@ -356,7 +356,9 @@ inline std::vector<double> alphabet(const std::string &name) {
     // fixed menus of pseudo-random weightings: "R9x4" = 4 weightings per graph with weights 1..9 from a deterministic LCG.
     // A menu is a finite list enumerated completely on every run (a fixed corpus, not a sample drawn at run time).
     if (name.size() >= 4 && name[0] == 'R' && name.find('x') != std::string::npos) { int k = atoi(name.c_str() + 1), cnt = atoi(name.c_str() + name.find('x') + 1); return {-1000.0 - k, (double) cnt}; }
-    if (name == "H3") return {1, 1000, 2000};           // light / heavy / heavier (amplified gadgets for the approximation bound)
+    if (name == "H3") return {1, 1000, 2000};
+    if (name == "H4") return {1, 3, 1000, 2000};        // two light values (a chord heavier than the path around it), heavy, heavier
+    if (name == "H5") return {1, 2, 3, 1000, 2000};           // light / heavy / heavier (amplified gadgets for the approximation bound)
     if (name == "H2") return {1, 100};                 // extreme ratio: adversarial for approximation guarantees
     if (name == "OH") return {-500};
     if (name == "A2H") return {-600};                  // edge #0 weighs 1000, every other edge ranges over {1,2}: 2^(m-1) weightings                   // "one heavy edge": m weightings, edge idx weighs 1000, the others 1 + (j mod 2)
